@@ -3,6 +3,7 @@
 package rig
 
 import (
+	"sync"
 	"context"
 	"errors"
 	"fmt"
@@ -126,6 +127,7 @@ type Stack struct {
 	OpenCaches int
 
 	Handles map[int]*Handle
+	mu      sync.Mutex
 
 	// signed-header recording (C08)
 	OnWriteHeader func(ev *config.HeaderEvent)
@@ -135,6 +137,8 @@ type Stack struct {
 // event counts one seam event and reports whether the armed fault fires on it.
 func (s *Stack) event(seam string) bool {
 	vsync.Seam(seam)
+	s.mu.Lock() // only contended in the free-running race pass
+	defer s.mu.Unlock()
 	s.Counts[seam]++
 	if s.Armed != nil && !s.Fired && s.Armed.Seam == seam && s.Counts[seam] == s.Armed.K {
 		s.Fired = true
@@ -166,7 +170,29 @@ func (w *driveWriter) Write(p []byte) (int, error) {
 	return n, err
 }
 
+// SetHandle / GetHandle / DelHandle guard the handle table (threads of the race pass share it).
+func (s *Stack) SetHandle(slot int, h *Handle) {
+	s.mu.Lock()
+	defer s.mu.Unlock()
+	if s.Handles == nil {
+		s.Handles = map[int]*Handle{}
+	}
+	s.Handles[slot] = h
+}
+func (s *Stack) GetHandle(slot int) *Handle {
+	s.mu.Lock()
+	defer s.mu.Unlock()
+	return s.Handles[slot]
+}
+func (s *Stack) DelHandle(slot int) {
+	s.mu.Lock()
+	defer s.mu.Unlock()
+	delete(s.Handles, slot)
+}
+
 func (s *Stack) logWrite(n int) {
+	s.mu.Lock()
+	defer s.mu.Unlock()
 	off := int64(0)
 	if l := len(s.WriteLog); l > 0 {
 		off = s.WriteLog[l-1].Off + int64(s.WriteLog[l-1].N)
@@ -182,7 +208,9 @@ type driveReader struct {
 }
 
 func (r *driveReader) Read(p []byte) (int, error) {
-	r.s.ReadSteps++
+	if r.s.ReadBudget > 0 {
+		r.s.ReadSteps++
+	}
 	if r.s.ReadBudget > 0 && r.s.ReadSteps > r.s.ReadBudget {
 		r.s.BudgetExceeded = true
 		return 0, errors.New("verif: drive reader step budget exceeded (no progress)")
@@ -193,7 +221,9 @@ func (r *driveReader) Read(p []byte) (int, error) {
 	return r.f.Read(p)
 }
 func (r *driveReader) Seek(off int64, whence int) (int64, error) {
-	r.s.ReadSteps++
+	if r.s.ReadBudget > 0 {
+		r.s.ReadSteps++
+	}
 	if r.s.ReadBudget > 0 && r.s.ReadSteps > r.s.ReadBudget {
 		r.s.BudgetExceeded = true
 		return 0, errors.New("verif: drive reader step budget exceeded (no progress)")
@@ -449,7 +479,9 @@ func NewStack(dir string, cfg Config, keys *Keys) (*Stack, error) {
 		if err != nil {
 			return nil, nil, err
 		}
+		s.mu.Lock()
 		s.OpenCaches++
+		s.mu.Unlock()
 		return &faultyCache{s: s, c: c}, clean, nil
 	}
 	writeOps := s.WriteOps
